@@ -353,6 +353,11 @@ def check_instances(trace):
         if r['k'] == 'body_start' and r.get('inst_uses'):
             out.append(F(['C08', 'C17'], 'node_instance_reused', node=r['node'], uses=r['inst_uses']))
             break
+    for r in trace:
+        if r['k'] == 'body_start' and r.get('factory') is False:
+            # the class declares default_factory, but this node object was made some other way (execution modes differ)
+            out.append(F(['C17'], 'node_object_not_from_default_factory', node=r['node']))
+            break
     return out
 
 
